@@ -39,15 +39,17 @@ def find_func(tree, name, cls=None):
         if cls and isinstance(node, ast.ClassDef) and node.name == cls:
             for sub in node.body:
                 if isinstance(sub, ast.FunctionDef) and sub.name == name:
+                    _MODULE_OF[id(sub)] = tree
                     return sub
         if not cls and isinstance(node, ast.FunctionDef) and node.name == name:
+            _MODULE_OF[id(node)] = tree
             return node
     return None
 
 
 def const_list(node):
     """['a','b'] / ('a','b') / 'a' -> list of str, else None"""
-    if isinstance(node, (ast.List, ast.Tuple)):
+    if isinstance(node, (ast.List, ast.Tuple, ast.Set)):
         out = []
         for e in node.elts:
             if isinstance(e, ast.Constant) and isinstance(e.value, str):
@@ -78,17 +80,51 @@ def eval_list(node, env):
     return const_list(node)
 
 
-def in_lists(func):
-    """all `x in [..consts..]` / `x not in [...]` comparator lists in source order"""
-    out = []
+_MODULE_OF = {}     # id(function node) -> module tree (filled by find_func) so that names can be resolved
+
+
+def const_env(func):
+    """constant containers a comparator may name instead of spelling them out: module-level and function-local
+    `NAME = [..] / (..) / {..}` (also `A + B` of such), as a tidy-up would introduce them.  A name that is assigned
+    more than once, or to anything else, is not resolved."""
+    env, seen = {}, {}
+    tree = _MODULE_OF.get(id(func))
+    scopes = ([tree.body] if tree is not None else []) + [[n for n in ast.walk(func) if isinstance(n, ast.Assign)]]
+    for body in scopes:
+        for node in body:
+            if isinstance(node, ast.Assign) and len(node.targets) == 1 and isinstance(node.targets[0], ast.Name):
+                nm = node.targets[0].id
+                seen[nm] = seen.get(nm, 0) + 1
+                val = eval_list(node.value, env)
+                if val is not None:
+                    env[nm] = val
+    return {k: v for k, v in env.items() if seen.get(k) == 1}
+
+
+def in_lists(func, n=None, resolve=None):
+    """all `x in [..consts..]` / `x not in [...]` comparator lists in source order.  Comparators given by the NAME of a
+    constant container are looked at only when the literal ones alone do not give the expected number `n` of lists (the
+    original code also tests membership in module-level lists such as `addable_types`, which are extracted separately)."""
     if func is None:
         return None
+    if resolve is None:
+        plain = in_lists(func, n, False)
+        if n is None or (plain is not None and len(plain) == n):
+            return plain
+        return in_lists(func, n, True)
+    out = []
+    env = const_env(func) if resolve else {}
+
+    def clist(node):        # the comparator, spelled out or given by the name of a constant container
+        if isinstance(node, ast.Name) and node.id in env:
+            return list(env[node.id])
+        return const_list(node)
 
     class V(ast.NodeVisitor):
         def visit_Compare(self, node):
             for op, comp in zip(node.ops, node.comparators):
                 if isinstance(op, (ast.In, ast.NotIn)):
-                    cl = const_list(comp)
+                    cl = clist(comp)
                     if cl is not None:
                         out.append(cl)
             self.generic_visit(node)
@@ -98,7 +134,7 @@ def in_lists(func):
     for n in nodes:
         for op, comp in zip(n.ops, n.comparators):
             if isinstance(op, (ast.In, ast.NotIn)):
-                cl = const_list(comp)
+                cl = clist(comp)
                 if cl is not None:
                     out.append(cl)
     return out
@@ -119,6 +155,43 @@ def local_assign_lists(func, names):
     return [res[n] for n in names]
 
 
+def dict_pairs(node):
+    if not isinstance(node, ast.Dict):
+        return None
+    out = []
+    for k, v in zip(node.keys, node.values):
+        if isinstance(k, ast.Constant) and isinstance(v, ast.Constant):
+            out.append((k.value, v.value))
+        else:
+            return None
+    return out
+
+
+def used_dict(func):
+    """the single constant str->str dict a function looks things up in, when it is not the local `name = {...}` the
+    original spells: a local under another name, or a module-level constant"""
+    if func is None:
+        return None
+    tree = _MODULE_OF.get(id(func))
+    cands = {}
+    for node in ast.walk(func):
+        if isinstance(node, ast.Assign) and len(node.targets) == 1 and isinstance(node.targets[0], ast.Name):
+            d = dict_pairs(node.value)
+            if d is not None:
+                cands[node.targets[0].id] = d
+    if tree is not None:
+        for node in tree.body:
+            if isinstance(node, ast.Assign) and len(node.targets) == 1 and isinstance(node.targets[0], ast.Name):
+                d = dict_pairs(node.value)
+                if d is not None and node.targets[0].id not in cands:
+                    cands[node.targets[0].id] = d
+    used = set()
+    for node in ast.walk(func):
+        if isinstance(node, ast.Subscript) and isinstance(node.value, ast.Name) and node.value.id in cands:
+            used.add(node.value.id)
+    return cands[used.pop()] if len(used) == 1 else None
+
+
 def local_dict(func, name):
     if func is None:
         return None
@@ -137,12 +210,17 @@ def local_dict(func, name):
 
 # ---------------------------------------------------------------- sat.cnf clause templates
 
+_ID_ALIAS = {}      # local name -> template variable, for `n_var = variables.id(n)` hoisted out of the clauses
+
+
 def lit_of(node, varmap):
     """variables.id(X) / -variables.id(X)  ->  (pos, var)"""
     pos = True
     if isinstance(node, ast.UnaryOp) and isinstance(node.op, ast.USub):
         pos = False
         node = node.operand
+    if isinstance(node, ast.Name) and node.id in _ID_ALIAS and node.id not in varmap:
+        return (pos, _ID_ALIAS[node.id])
     if isinstance(node, ast.Call) and isinstance(node.func, ast.Attribute) and node.func.attr == "id" \
             and len(node.args) == 1:
         a = node.args[0]
@@ -253,6 +331,15 @@ def extract_cnf(tree):
     if loop is None:
         return None
     demote, gates, xor = [], [], None
+    _ID_ALIAS.clear()
+    for st in loop.body:
+        # `n_var = variables.id(n)` at the top of the loop body (the original evaluates `variables.id(n)` there for its
+        # numbering side effect only): later clauses may name the variable instead of looking it up again
+        if isinstance(st, ast.Assign) and len(st.targets) == 1 and isinstance(st.targets[0], ast.Name):
+            v = st.value
+            if isinstance(v, ast.Call) and isinstance(v.func, ast.Attribute) and v.func.attr == "id" and len(v.args) == 1 \
+                    and isinstance(v.args[0], ast.Name) and v.args[0].id == "n":
+                _ID_ALIAS[st.targets[0].id] = "n"
     for st in loop.body:
         if not isinstance(st, ast.If):
             continue
@@ -443,9 +530,9 @@ def main():
         for nm in ["primitive_gates", "addable_types", "supported_types"]:
             env[nm] = module_list(ct, nm, env)
             emit_opt_list(nm, env[nm])
-        emit_opt_lists("add_lists", in_lists(find_func(ct, "add", "Circuit")), 2)
-        emit_opt_lists("connect_lists", in_lists(find_func(ct, "connect", "Circuit")), 4)
-        emit_opt_lists("remove_unloaded_lists", in_lists(find_func(ct, "remove_unloaded", "Circuit")), 3)
+        emit_opt_lists("add_lists", in_lists(find_func(ct, "add", "Circuit"), 2), 2)
+        emit_opt_lists("connect_lists", in_lists(find_func(ct, "connect", "Circuit"), 4), 4)
+        emit_opt_lists("remove_unloaded_lists", in_lists(find_func(ct, "remove_unloaded", "Circuit"), 3), 3)
         emit_opt_lists("set_type_lists", None if find_func(ct, "set_type", "Circuit") is None else [], 0)
     except SyntaxError:
         for nm in ["primitive_gates", "addable_types", "supported_types"]:
@@ -465,11 +552,13 @@ def main():
     try:
         tt = parse("tx.py")
         gm = local_dict(find_func(tt, "limit_fanin"), "gatemap")
+        if gm is None:
+            gm = used_dict(find_func(tt, "limit_fanin"))
         status["gatemap"] = "ok" if gm is not None else "lost"
         out.append("def gatemap : Option (List (String × String)) := " +
                    lopt(gm, lambda g: llist(g, lambda kv: f"({lstr(kv[0])}, {lstr(kv[1])})")))
-        emit_opt_lists("ternary_lists", in_lists(find_func(tt, "ternary")), 6)
-        emit_opt_lists("subcircuit_lists", in_lists(find_func(tt, "subcircuit")), 2)
+        emit_opt_lists("ternary_lists", in_lists(find_func(tt, "ternary"), 6), 6)
+        emit_opt_lists("subcircuit_lists", in_lists(find_func(tt, "subcircuit"), 2), 2)
     except SyntaxError:
         out.append("def gatemap : Option (List (String × String)) := none")
         emit_opt_lists("ternary_lists", None)
